@@ -2007,8 +2007,10 @@ class UserActions(object):
     # We don't set the values of formula columns, they should just recalculate themselves
     if not col.is_formula():
       row_ids, values = col.rename_choices(renames)
-      values = [encode_object(v) for v in values]
-      self.BulkUpdateRecord(table_id, row_ids, {col_id: values})
+      # The column's storage also has slots for the empty record #0 and for removed records. They
+      # hold the default value (which `renames` may mention), but there is no record to update.
+      updates = [(r, encode_object(v)) for r, v in zip(row_ids, values) if r in table.row_ids]
+      self.BulkUpdateRecord(table_id, [r for r, v in updates], {col_id: [v for r, v in updates]})
 
     # Helper to rename only string values
     def rename(value):
